@@ -62,6 +62,9 @@ def check(ctx, R):
         _one_okay(ctx, R, roles, T)
         _stop_and_wait(ctx, R, roles, T)
         _close(ctx, R, roles, T)
+    # "OPEN carries a fresh non-zero local id": allocation of the id (same rules as C14)
+    from .c14 import id_rules
+    id_rules(ctx, R)
     arg_rule(ctx, R, "stream", "ARG-stream", min_count=40)
     R.assume("the pump returns only commands contained in its `expected` argument (checked in C06 PUMP-ret)")
     R.undecided("device-side orderings of packets (a run-time quantity)")
@@ -367,6 +370,21 @@ def _close(ctx, R, roles, T):
                             other = "false" if lab == "true" else "true"
                             if sn in g.reach_from_edge(tn, lab, avoid=[tn], exc=False) and sn not in g.reach_from_edge(tn, other, avoid=[tn], exc=False):
                                 gov = True
+        # ... and every packet read is looked at: nothing (a timeout check, say) may leave the generator between the read and the test of its
+        # command - a CLSE taken off the wire there would never be answered, a WRTE acknowledged by the reader never delivered
+        tests_on_cmd = []
+        for tn in g.live_nodes():
+            if tn.kind == "test":
+                t = unawait(tn.ast.test)
+                if isinstance(t, ast.Compare) and len(t.ops) == 1:
+                    a, b = T.term(drain, tn, t.left), T.term(drain, tn, t.comparators[0])
+                    if ("proj", rt, 0) in (a, b):
+                        tests_on_cmd.append(tn)
+        between = g.reach([rn], avoid=tests_on_cmd, exc=False)
+        lost = [x for x in between if (x.kind == "stmt" and isinstance(x.ast, (ast.Raise, ast.Return))) or x is g.exit]
+        R.check(bool(tests_on_cmd) and not lost, "CLOSE", drain.qualname + "|every-packet-handled", "every packet read is dispatched on its command before anything can end the generator",
+                "the drain generator can stop (`%s`) after reading a packet and before looking at its command: a device CLSE read there is never answered" % (norm_stmt(lost[0].ast) if lost and lost[0].ast is not None else "end"),
+                drain.loc(rn.ast))
         R.check(gov, "CLOSE", drain.qualname + "|answer-only", "the drain generator sends CLSE only in answer to the device's CLSE",
                 "the drain generator can send CLSE although the delivered packet is not the device's CLSE", drain.loc(sn.ast))
         after = g.reach([sn], exc=False)
